@@ -203,7 +203,8 @@ func (s *JSchema) UsedUserTypes() ([]string, error) {
 	if err := s.load(); err != nil {
 		return nil, err
 	}
-	return s.UserTypesNamesUsed.Data(), nil
+	// The set keeps its list: hand out a copy, the caller may do with it what it likes.
+	return append([]string(nil), s.UserTypesNamesUsed.Data()...), nil
 }
 
 func (s *JSchema) load() error {
